@@ -18,6 +18,7 @@ character-class shape of the 1-minimal witness.
 """
 from __future__ import annotations
 
+import os
 import random
 import re
 
@@ -31,7 +32,7 @@ RULE = ("part N: content c = token soup (1-14 tokens over the C01 alphabet: ever
         "11 spellings, magic words, URL schemes, include/pre/comment/nowiki openers, separators | || }} ]] , list/table markers at "
         "line start; '&' only when no entity is formed; closing tag removed; 4% tagged placeholder-range class; bounded-exhaustive "
         "part: every single map character and every ordered pair of map characters) x opener/closer spellings x embedding context "
-        "(25) for expand, x 3 parse modes at top level, x 14 embedding contexts for parse; part K: token soups with 1-4 inserted "
+        "(28) for expand, x 3 parse modes at top level, x 15 embedding contexts for parse; part K: token soups with 1-4 inserted "
         "comments (content from the same alphabet, newline before/after, adjacent, at start/end) and structured embeddings "
         "(template argument, table cell, list, heading, link, inside nowiki, around nowiki delimiters) under expand and parse. "
         "non-trivial = distinct (content, context) whose content contains >=1 of the 15 map characters / distinct input with >=1 "
@@ -119,7 +120,9 @@ def floors(tier):
 
 def shards(tier, seed):
     n = 16
-    per = {"quick": 1200, "thorough": 20000}[tier]
+    per = {"quick": 1200, "thorough": 32000}[tier]
+    if os.environ.get("VERIF_C15_PER"):  # development aid: reduced count with the same code path
+        per = int(os.environ["VERIF_C15_PER"])
     return [{"seed": seed * 1000 + i, "n": per, "idx": i, "nsh": n, "tier": tier} for i in range(n)]
 
 
@@ -295,7 +298,7 @@ class Monitor:
             src = fmt.replace("%s", nw)
         st, got = self.x(src, **kw)
         if st != "ok":
-            return (st if st == "no-return" else "raises:" + got), "%s on %r" % (st, src[:200])
+            return (st if st == "no-return" else "raises:" + got), "%s %s on expand(%r)" % (st, got, src[:200])
         qc = R.Q(c)
         exp = efmt.replace("%s", qc)
         obs.check("nowiki.expand-exact")
@@ -319,7 +322,7 @@ class Monitor:
     def parse_top_case(self, c, mode, oc):
         st, root = self.p(self.nw(c, oc), mode)
         if st != "ok":
-            return (st if st == "no-return" else "raises:" + root), "%s on parse" % st
+            return (st if st == "no-return" else "raises:" + root), "%s %s on parse(%r, %r)" % (st, root, self.nw(c, oc)[:200], PMODES[mode])
         self.obs.check("nowiki.parse-top")
         want = [R.Q(c)] if c else []
         if root.children != want:
@@ -340,7 +343,8 @@ class Monitor:
             return "parse-ctx-baseline", "sentinel document does not parse in %s" % name
         st, root = self.p(PBYNAME[name].replace("%s", self.nw(c, oc)), mode)
         if st != "ok":
-            return (st if st == "no-return" else "raises:" + root), "%s on parse" % st
+            return (st if st == "no-return" else "raises:" + root), "%s %s on parse(%r, %r)" % (
+                st, root, PBYNAME[name].replace("%s", self.nw(c, oc))[:200], PMODES[mode])
         self.obs.check("nowiki.parse-ctx")
         got = canon(root)
         want = subst(base, SENT, R.Q(c))
@@ -394,6 +398,8 @@ class Monitor:
             if not failing(list(mc), mcase):
                 mcase = dict(case, c=mc)
             ctxtag = case.get("ctx", "top")
+            if case["check"] == "expand" and ctxtag in ("body", "body-arg", "defval"):
+                ctxtag = "template-body"
             if case["check"] == "expand" and ctxtag != "top":
                 q = self.nowiki_eval(dict(mcase, ctx="top"))
                 if q is not None and q[0] == rule:
@@ -413,10 +419,37 @@ class Monitor:
                     # only with an expand pass first, and the 1-minimal content needs a character outside the
                     # map: the finalised expand() output is parsed again and that character is markup again
                     return "nowiki/parse-after-expand-pass/non-map-characters-reinterpreted", mcase
+            cshape = R.shape(mc)
+            if len(mc) == 1 and mc in R.MAP:
+                # canonical form: which single map characters fail the same way
+                fails = [k for k in R.MAP if failing([k], mcase)]
+                if len(fails) == len(R.MAP):
+                    cshape = "any-map-char"
+                elif 1 < len(fails) <= 4:
+                    cshape = ",".join(fails)
+                elif len(fails) > 4:
+                    cshape = "%d-map-chars" % len(fails)
         finally:
             self.obs = saved
-        sig = "nowiki/%s/ctx=%s%s%s/c=%s" % (rule, ctxtag, modetag, octag, R.shape(mc))
+        sig = "nowiki/%s/ctx=%s%s%s/c=%s" % (rule, ctxtag, modetag, octag, cshape)
         return sig, mcase
+
+    def cheap_class(self, case, prob):
+        """One-run recognition of the two frequent classes, used only when the minimisation budget is spent;
+        anything not recognised is minimised regardless of the budget (nothing is dropped unclassified)."""
+        c = case["c"]
+        if R.PLACEHOLDER_RE.search(c):
+            return "placeholder-class"
+        if case["check"] != "expand" and case["mode"] != 0 and prob[0] not in ("no-return",) \
+                and any(ch not in R.MAP for ch in c):
+            saved = self.obs
+            self.obs = Obs()
+            try:
+                if self.nowiki_eval(dict(case, mode=0)) is None:
+                    return "parse-after-expand-pass"
+            finally:
+                self.obs = saved
+        return None
 
     # ----- part K
     def comment_eval(self, text, f, mode):
@@ -550,13 +583,17 @@ def run_nowiki(mon, obs, rng, c, cls, budget, exh=None):
         if prob is None:
             continue
         obs.count("nowiki.failures")
-        if budget[0] > 0 or budget[1] % 20 == 0:
+        cheap = None
+        if not (budget[0] > 0 or budget[1] % 20 == 0):
+            cheap = mon.cheap_class(case, prob)
+        if cheap is None:
             budget[0] -= 1
             sig, mcase = mon.nowiki_sig(case, prob)
             q = mon_replay_msg(mon, mcase) or prob[1]
             obs.violation(sig, q, dict(mcase, part="nowiki", oc=list(mcase.get("oc", (0, 0)))))
         else:
-            obs.count("nowiki.failures.unminimised")
+            # over the minimisation budget and recognised (one extra run) as a class that is already recorded
+            obs.count("nowiki.failures.unminimised." + cheap)
         budget[1] += 1
         if pl["check"] == "expand" and pl["ctx"] == "top":
             # the other contexts would fail for the same reason
